@@ -325,7 +325,7 @@ func c12Check(e *core.Env, r *core.Rand, d *gen.Out, f string, inFiles []string,
 		e.Violation("report-fails", fmt.Sprintf("%s failed although every open range is closeable: %s %s", w["view"], res.Err.Error(), res.Err.Details()), w)
 		return
 	}
-	if core.Hash64("cli", d.Text, fmt.Sprint(w["view"]))%20 == 0 {
+	if core.Hash64("cli", d.Text, fmt.Sprint(w["view"]))%20 == 0 && q.cliOK() {
 		args := []string{"report", "--aggregate", agg, "--decimal", "--no-warn", "--no-style"}
 		if fill {
 			args = append(args, "--fill")
